@@ -112,7 +112,8 @@ def spec_readback(chk, gwbin, label, cfg, n_ops):
     rnd = chk.rnd
     content_sets = [{}, {"content-type": "text/plain; charset=utf-8"}, {"content-type": "application/x-custom", "content-encoding": "gzip", "content-language": "de-DE",
                                                                     "content-disposition": 'attachment; filename="a b.txt"', "cache-control": "max-age=60, no-store", "expires": "Wed, 21 Oct 2026 07:28:00 GMT"}]
-    meta_sets = [{}, {"alpha": "1"}, {"Mixed-Case": "Value With Spaces", "k2": "v=2&x"}, {"alpha": "1", "beta": "2", "gamma": "3"}]
+    meta_sets = [{}, {"alpha": "1"}, {"Mixed-Case": "Value With Spaces", "k2": "v=2&x"}, {"alpha": "1", "beta": "2", "gamma": "3"},
+                 {"app.version": "1.2.3", "org.example.owner": "me", "version": "plain"}, {"a-b_c.d": "x.y", "x-amz-meta-nested": "n", "0": "zero", "trailing.": "t", ".leading": "l"}]
     tag_sets = [{}, {"t1": "v1"}, {"t1": "v1", "t2": "v 2", "t3": "a+b=c&d"}]
     with gw.Site(cfg, name="c01s") as site:
         gws = [site.gateway(gwbin), site.gateway(gwbin)]
